@@ -594,6 +594,54 @@ def part_env(sh, res):
                         res.violation('entry-point-disagrees', {'entry_point': route, 'join_table_named_by': kind, 'reference_in_query': ref, 'query': text, 'cwd': 'work/', 'main_table': 'data/t1.csv'}, {'records': strtab(exp.records)}, {'records': recs, 'error': err})
                     else:
                         res.nontrivial += 1
+        # documented command-line options not covered by the configuration grid: the explicit `csv` mode word, --comment-prefix with a multi-character prefix,
+        # --policy monocolumn (no --delim), --policy whitespace, --init-source-file
+        def cli(argv, stdin_bytes=None):
+            saved = (sys.argv, sys.stdin, sys.stdout, sys.stderr)
+            fake_out = io.TextIOWrapper(io.BytesIO(), encoding='utf-8')
+            sys.argv, sys.stdin, sys.stdout, sys.stderr = ['rbql'] + argv, io.TextIOWrapper(io.BytesIO(stdin_bytes or b''), encoding='utf-8'), fake_out, io.StringIO()
+            rc_ = 0
+            try:
+                try:
+                    rbql_main.main()
+                except SystemExit as e:
+                    rc_ = e.code if isinstance(e.code, int) else (0 if e.code is None else 1)
+                errtext = sys.stderr.getvalue()
+            finally:
+                sys.argv, sys.stdin, sys.stdout, sys.stderr = saved
+            fake_out.flush()
+            return rc_, fake_out.buffer.getvalue().decode('utf-8'), errtext
+        pc = os.path.join(data, 'c.csv')
+        with open(pc, 'w', newline='') as f:
+            f.write('>>note\nk,v1\n>>x,y\nm,v2\n>k,v3\n')
+        pm = os.path.join(data, 'm.txt')
+        with open(pm, 'w', newline='') as f:
+            f.write('k, 1\n\nm x\n')
+        pw = os.path.join(data, 'w.txt')
+        with open(pw, 'w', newline='') as f:
+            f.write('k  v1\n m v2 \nn v3\n')
+        pinit = os.path.join(data, 'init.py')
+        with open(pinit, 'w') as f:
+            f.write("def tag(x):\n    return 'I:' + x\n")
+        option_cases = [
+            ('csv_mode_word', ['csv', '--query', 'select a2, a1', '--delim', ',', '--input', p1], [[r[1], r[0]] for r in A], (',', 'quoted')),
+            ('comment_prefix_two_chars', ['--query', 'select a1, a2, NR', '--delim', ',', '--comment-prefix', '>>', '--input', pc], [['k', 'v1', '1'], ['m', 'v2', '2'], ['>k', 'v3', '3']], (',', 'quoted')),
+            ('policy_monocolumn', ['--query', 'select NR, a1', '--policy', 'monocolumn', '--out-format', 'csv', '--input', pm], [['1', 'k, 1'], ['2', ''], ['3', 'm x']], (',', 'quoted')),
+            ('policy_whitespace', ['--query', 'select a2, a1, NF', '--policy', 'whitespace', '--delim', ' ', '--out-format', 'csv', '--input', pw], [['v1', 'k', '2'], ['v2', 'm', '2'], ['v3', 'n', '2']], (',', 'quoted')),
+            ('init_source_file', ['--query', 'select tag(a1)', '--delim', ',', '--init-source-file', pinit, '--input', p1], [['I:' + r[0]] for r in A], (',', 'quoted')),
+            ('stdin_with_comment_prefix', ['--query', 'select a1', '--delim', ',', '--comment-prefix', '#'], [['k'], ['m']], (',', 'quoted'), b'#c\nk,1\n#d\nm,2\n'),
+        ]
+        for oc in option_cases:
+            label, argv, want_recs, (odlm, opol) = oc[:4]
+            rc_, out_text, errtext = cli(argv, oc[4] if len(oc) > 4 else None)
+            recs = refcsv.ref_read(out_text, odlm, opol).records if rc_ == 0 else None
+            res.evaluations += 1
+            res.traces += 1
+            res.feat('ep_cli_option_' + label)
+            if rc_ != 0 or recs != want_recs or [l for l in errtext.split('\n') if l.strip() and not l.startswith('Warning: ')]:
+                res.violation('cli-output-differs', {'entry_point': 'cli_inprocess', 'option': label, 'argv': argv}, {'exit': 0, 'records': want_recs}, {'exit': rc_, 'records': recs, 'stdout': out_text[:200], 'stderr': errtext[:300]})
+            else:
+                res.nontrivial += 1
         # the default init file: functions defined in ~/.rbql_init_source.py are available to CSV queries (library and command line)
         code = "def tag(x):\n    return 'T:' + x\nSUFFIX = '!'\n"
         with open(os.path.join(home, '.rbql_init_source.py'), 'w') as f:
@@ -742,7 +790,7 @@ def main(tier, seed):
              'the CLI in-process under 6 configurations x {file, stdin->stdout} with special-cell tables for explicit policies, the `rbql sqlite` command line in-process (--out-format omitted / csv / tsv x file / stdout, cells with line breaks and tabs), and real `python -m rbql` subprocesses rotating over all configurations; non-trivial = a successful run that agrees with RefQL',
         assumptions=['results are compared after str(); expressions are type-agnostic over string cells', 'child processes run with PYTHONWARNINGS=ignore (Python 3.12 prints its own SyntaxWarning when compiling rbql_engine.py from source)'],
         extra={'cli_configurations': [list(c[:3]) + [cfg_enc(c)] for c in CLI_CFGS]},
-        min_features={'ep_query_table': 100, 'ep_query_registry_from': 1000, 'ep_pandas_duplicate_labels': 50, 'ep_join_table_registered_name': 6, 'ep_join_table_relative_to_cwd': 6, 'ep_join_table_tilde': 6, 'ep_default_init_file': 3, 'ep_query_custom_classes': 100, 'ep_query_csv': 100, 'ep_query_csv_comment_prefix': 100, 'ep_pandas': 100, 'ep_sqlite_to_csv': 50, 'ep_cli_inprocess_file': 300, 'ep_cli_inprocess_stdin': 300,
+        min_features={'ep_query_table': 100, 'ep_query_registry_from': 1000, 'ep_pandas_duplicate_labels': 50, 'ep_join_table_registered_name': 6, 'ep_join_table_relative_to_cwd': 6, 'ep_join_table_tilde': 6, 'ep_default_init_file': 3, 'ep_cli_option_policy_monocolumn': 1, 'ep_cli_option_init_source_file': 1, 'ep_query_custom_classes': 100, 'ep_query_csv': 100, 'ep_query_csv_comment_prefix': 100, 'ep_pandas': 100, 'ep_sqlite_to_csv': 50, 'ep_cli_inprocess_file': 300, 'ep_cli_inprocess_stdin': 300,
                       'ep_cli_sqlite_file': 300, 'ep_cli_sqlite_stdout': 300, 'ep_cli_subprocess_file': 30, 'ep_cli_subprocess_stdin': 30, 'cli_failures_ok': 20, 'failing_agree': 20})
 
 
